@@ -45,7 +45,7 @@ class Run:
 		self.t_start = self.vt.now
 		self.gen.start()
 		th = self.gen._thread
-		th.join(60)
+		th.join(600)
 		alive = th.is_alive()
 		if alive:
 			ev.set()
